@@ -235,6 +235,11 @@ def one(rnd, work, k):
         layer = layer >> pickpool.Tagged()
         rec['kinds'] = sorted(set(rec['kinds']) | {'mixin'})
         targets += ['tag', 'other']
+    if 'image' in fields and not any(d['t'] == 'groupby' for d in spec) and rnd.random() < 0.3:
+        import pickpool
+        layer = layer >> pickpool.Annotated()
+        rec['kinds'] = sorted(set(rec['kinds']) | {'stacked-annotations'})
+        targets += ['n_parts', 'n_items', 'both', ('both', 'n_items')]
     for t in targets:
         fr = {'fields': t if isinstance(t, str) else list(t)}
         rec['functions'].append(fr)
